@@ -29,12 +29,13 @@ PROPS = {
             'Builder::{configure, register_*, with_service_name, build_v1, build_v1alpha} (impl Trait return types) are not under contract',
         ]),
     'C02': dict(
-        units=['encode', 'decode', 'status', 'reqresp', 'metadata', 'clientglue', 'serverglue'], level='proof',
+        units=['encode', 'decode', 'status', 'reqresp', 'metadata', 'clientglue', 'serverglue', 'errmap'], level='proof',
         witness=[dict(append_to='tonic/src/status.rs', module='replay/status_witness.rs', crate='tonic', filter='verif_witness_status', features=['--features', 'gzip,deflate,zstd']), dict(append_to='tonic/src/codec/decode.rs', module='replay/decode_witness.rs', crate='tonic', filter='verif_witness_decode', features=['--features', 'gzip,deflate,zstd'])],
         not_covered=[
             'decided here: the hand-off of status / trailers / metadata at both ends (encode, decode, status units) AND the call-shape glue: client Grpc::{prepare_request, create_response, streaming, client_streaming, unary, server_streaming} and server Grpc::{map_request_unary, map_request_streaming, map_response, unary, server_streaming, client_streaming, streaming} as sequential async code (Verus treats .await as a call)',
             'the glue is proved RELATIVE to assumed interfaces: the transport (GrpcService: ghost log of requests + the answer its future resolves to), the handler (respond(): its answer is a function of handler and request), the Codec, and the Streaming stream API (try_next / trailers as functions nxt / trl of the stream state, A-tonic-decode-02); Streaming::message / Streaming::trailers are under contract in unit decode (message() is what the REAL poll_next answers when driven to readiness: await of poll_fn modelled as a poll-until-ready loop, A-future-04), but the glue units still see the stream through nxt / trl, not through those contracts',
             'the HTTP/2 transport between the two ends (hyper/h2): that the client http::Response carries the status line, headers, DATA and trailers the server produced, under any fragmentation and interleaving; task scheduling (the property quantifies over readiness interleavings: covered only per poll call by the ghost-history contracts of encode / decode)',
+            'a status raised inside the server stack as a boxed error (a Status anywhere in the cause chain) leaves it as a trailers-only response spelling that status (unit errmap: RecoverError); client Status::from_error_generic is still seen as an opaque function in unit clientglue',
             'the generated code that picks the call shape (tonic-build output) is not under contract; server Grpc::apply_compression_config is (unit serverglue, G7, with the reference pattern of its for loop rewritten by R22)',
         ]),
     'C16': dict(
@@ -54,18 +55,19 @@ PROPS = {
             'the client layer (GrpcWebClientService::call, its ResponseFuture, the client_request / client_response adapters) is under contract in unit webservice; GrpcWebClientLayer::layer is a constructor call',
         ]),
     'C14': dict(
-        units=['reconnect'], level='proof',
+        witness=[dict(append_to='tonic/src/status.rs', module='replay/status_witness.rs', crate='tonic', filter='verif_witness_status', features=['--features', 'gzip,deflate,zstd'])],
+        units=['reconnect', 'errmap'], level='proof',
         not_covered=[
             'Connection::{connect,lazy}, the tower Buffer worker in front of Reconnect, hyper connection-death detection (poll_ready of the connected service reporting an error is taken as given)',
-            'ConnectError -> UNAVAILABLE mapping goes through dyn Error source chains (Status::from_error)',
+            'ConnectError -> UNAVAILABLE is under contract (unit errmap, same `dyn Error` model as for C09: A-std-error-01); that the connector wraps its failures in ConnectError (Connector / SendRequest) is not',
             'liveness ("every call completes") is not claimed: the loop in poll_ready has no decreases clause - a connector that always succeeds and dies at once is a legitimate infinite history; what is proved is the state machine for every finite history',
         ]),
     'C09': dict(
-        witness=[dict(append_to='tonic/src/transport/service/grpc_timeout.rs', module='replay/timeout_witness.rs', crate='tonic', filter='verif_witness_timeout', features=['--features', 'gzip,deflate,zstd']), dict(append_to='tonic/src/request.rs', module='replay/request_witness.rs', crate='tonic', filter='verif_witness_request', features=['--features', 'gzip,deflate,zstd'])],
-        units=['timeout', 'serverconfig'], kani=['timeout_digits'], level='proof',
+        witness=[dict(append_to='tonic/src/status.rs', module='replay/status_witness.rs', crate='tonic', filter='verif_witness_status', features=['--features', 'gzip,deflate,zstd']), dict(append_to='tonic/src/transport/service/grpc_timeout.rs', module='replay/timeout_witness.rs', crate='tonic', filter='verif_witness_timeout', features=['--features', 'gzip,deflate,zstd']), dict(append_to='tonic/src/request.rs', module='replay/request_witness.rs', crate='tonic', filter='verif_witness_request', features=['--features', 'gzip,deflate,zstd'])],
+        units=['timeout', 'serverconfig', 'errmap'], kani=['timeout_digits'], level='proof',
         not_covered=[
             'elapsed (virtual) time: that tokio::time::sleep(d) fires after exactly d and the grid of (caller timeout, configured timeout, handler latency) triples - the timer is an assumed primitive (A-tokio-01)',
-            'mapping of TimeoutExpired to a CANCELLED "Timeout expired" status goes through dyn Error source chains (Status::from_error / find_status_in_source_chain, RecoverError): not under contract',
+            'the mapping of TimeoutExpired to a CANCELLED "Timeout expired" status IS under contract (unit errmap: find_status_in_source_chain, Status::{try_from_error, from_error}, RecoverError ResponseFuture::poll), over a model of `dyn Error` as a finite cause chain of the concrete error types the mapping downcasts to (A-std-error-01); the text "Timeout expired" is the literal of the Display impl found in the tree on each run (A-fmt-03)',
             'Request::set_timeout is under contract (the grpc-timeout entry is the written value; the parse/unwrap never panics: lemma_timeout_text_is_visible); of the wiring only the Server builder (15 setters, layer()) and the Endpoint builder (15 setters: Endpoint::timeout stores the configured timeout, no other setter touches it) are: the hand-over Server.timeout -> MakeSvc.timeout -> GrpcTimeout::new inside serve_internal / MakeSvc::call (async fn, tower builder closures) and tls_config / trace_fn are not',
             'is_ascii_digits (iterator adapter) is discharged by the complete Kani harness kani::timeout_digits for every ASCII string of at most 8 bytes - the Verus shim carries that length as a precondition, proved at the call site - and linked as a callee contract; str::parse::<u64>, str::split_at, Display of integers are assumed std contracts (A-std-parse-01, A-std-str-04, A-fmt-01)',
         ]),
@@ -96,13 +98,13 @@ PROPS = {
         ]),
     'C04': dict(
         witness=[dict(append_to='tonic/src/status.rs', module='replay/status_witness.rs', crate='tonic', filter='verif_witness_status', features=['--features', 'gzip,deflate,zstd'])],
-        units=['status'], kani=['encoding_set', 'code_from_h2_table', 'h2_reason_constants', 'http_status_constants'], level='proof',
+        units=['status', 'errmap'], kani=['encoding_set', 'code_from_h2_table', 'h2_reason_constants', 'http_status_constants'], level='proof',
         not_covered=[
             'percent-encoding and base64 crates implement their RFCs and are mutually inverse (axioms A-pct-01, A-b64-01); tonic/src/util.rs engine configuration is represented by the Engine shim',
             'percent-encoding itself (that pct_dec inverts pct_enc) is assumed (A-pct-01/02); WHICH bytes tonic asks it to escape is decided: the complete Kani harness kani::encoding_set runs the real percent_encode with the real ENCODING_SET on all 256 bytes',
             'metadata that itself uses one of the three status header names (grpc-status-details-bin is not reserved) is outside lemma_status_roundtrip',
             'h2 reasons FRAME_SIZE_ERROR, STREAM_CLOSED, HTTP_1_1_REQUIRED and unknown ones are left unconstrained (the property names no code for them)',
-            'from_error / from_hyper_error / find_status_in_source_chain (dyn Error source chains) are not under contract',
+            'from_error / try_from_error / from_h2_error / from_hyper_error / find_status_in_source_chain are under contract in unit errmap over a model of `dyn Error` (A-std-error-01): a reset stream - an h2 error at the top, or as the direct cause of a hyper error - is mapped by the same table; hyper keep-alive timeouts / cancellations are recognised with the code left open (the property names none)',
         ]),
     'C01': dict(
         witness=[dict(append_to='tonic/src/codec/decode.rs', module='replay/decode_witness.rs', crate='tonic', filter='verif_witness_decode', features=['--features', 'gzip,deflate,zstd']), dict(append_to='tonic/src/codec/encode.rs', module='replay/encode_witness.rs', crate='tonic', filter='verif_witness_encode', features=['--features', 'gzip,deflate,zstd'])],
